@@ -108,11 +108,12 @@ def run(chk):
             chk.coverage["streams"]["corpus"] = {"cases": len(cases), "rule": "corpus/C01/*.json replayed (full payloads)",
                                                  "hist": rc.stats.get("hist", {}), "distinct_nontrivial": 0}
             vf.compare(chk, rc, classify=classify, binpath=binp, stream_label="corpus")
-    r = vf.run_stream(binp, "walk", n, chk.seed, os.path.join(chk.outdir, "walk"), replay=chk.replay)
+    extra = ["long=all"] if chk.tier == "thorough" else []
+    r = vf.run_stream(binp, "walk", n, chk.seed, os.path.join(chk.outdir, "walk"), extra=extra, replay=chk.replay)
     nt = skip_ties(r)
     r.stats.setdefault("hist", {})["model_TIE_skipped"] = nt
     chk.add_stream(r, RULE)
-    vf.compare(chk, r, classify=classify, binpath=binp)
+    vf.compare(chk, r, classify=classify, binpath=binp, extra=extra)
     if not chk.replay:
         run_app_stream(chk, "app_walk", RULE_APP, 140, 1500)
     finish(chk)
